@@ -115,6 +115,7 @@ def run_legacy_case(case, timeout=30.0):
     trace = Trace(sched)
     faults = LockedFaultPlan(case.get('faults'), trace)
     fs = fakefs.MemFS(sched, trace, faults)
+    fs.wbuf = case.get('fs_buffer') or 0
     svc = FakeS3(sched, trace, faults, case.get('scripts'),
                  strict_params=case.get('strict', True))
     R = Result()
